@@ -12,7 +12,8 @@ VARIABLES c, out
 
 DefaultCfg == [equals |-> One, proportional |-> <<1, 2>>, offset |-> None, linear |-> None]
 Case(kind, tol, jit, policy, evalerr, P, S, mode, cfg) ==
-  [kind |-> kind, tol |-> tol, jit |-> jit, policy |-> policy, evalerr |-> evalerr, P |-> P, S |-> S, mode |-> mode, cfg |-> cfg]
+  [kind |-> kind, tol |-> tol, jit |-> jit, policy |-> policy, evalerr |-> evalerr, typed |-> FALSE, P |-> P, S |-> S, mode |-> mode, cfg |-> cfg]
+Typed(k, form) == [k EXCEPT !.typed = form \in {"cplx0", "isq"}]
 Simple(kind, tol, jit, P, S) == Case(kind, tol, jit, DefaultPolicy, FALSE, P, S, Flat(Zero), DefaultCfg)
 I == <<0, 1>>
 UnitVec(n, j, z) == TLCEval([k \in 1..n |-> IF k = j THEN z ELSE GZ])
@@ -20,13 +21,13 @@ UnitVec(n, j, z) == TLCEval([k \in 1..n |-> IF k = j THEN z ELSE GZ])
 (* ------------------------------------------------------------------ congruence *)
 CongSeeds == {[kind |-> "seed", t |-> t, m |-> m, den |-> d] :
                 t \in (IF Thorough THEN -3..4 ELSE -2..3), m \in (IF Thorough THEN {2, 3, 4, 5, 7, -3, -4} ELSE {2, 3, 5, -3}), d \in {1, 2}}
-CongCases(s) == {x \in [kind : {"cong"}, t : {s.t}, m : {s.m}, den : {s.den}, k : (IF Thorough THEN -3..3 ELSE -2..2),
+CongCases(s) == {x \in [kind : {"cong"}, t : {s.t}, m : {s.m}, den : {s.den}, k : (IF Thorough THEN -3..3 ELSE {-2, 0, 1}),
                         step : {-1, 0, 1}, form : {"plain", "cplx0", "isq", "imag"}, jit : {-1, 0, 1},
                         tol : {"abs", "pct", "zero"}, grader : {"formula", "numerical"}] :
                    x.jit # 0 => (x.tol = "abs" /\ x.form = "plain" /\ x.step = 0)}
 CongX(x) == x.t + x.k * x.m + x.step
-BuildCong(x) == Simple("cong", x.tol, x.jit, << <<ScQ(G(x.t), x.den), ScQ(G(x.m), x.den)>> >>,
-                       << ScQ(<<CongX(x), IF x.form = "imag" THEN 1 ELSE 0>>, x.den) >>)
+BuildCong(x) == Typed(Simple("cong", x.tol, x.jit, << <<ScQ(G(x.t), x.den), ScQ(G(x.m), x.den)>> >>,
+                             << ScQ(<<CongX(x), IF x.form = "imag" THEN 1 ELSE 0>>, x.den) >>), x.form)
 
 (* ------------------------------------------------------------------ between *)
 BetweenSeeds == {[kind |-> "seed", a |-> a, w |-> w, den |-> d] : a \in -2..2, w \in (IF Thorough THEN -2..4 ELSE -1..3), d \in {1, 2}}
@@ -34,8 +35,8 @@ BetweenCases(s) == {x \in [kind : {"between"}, a : {s.a}, w : {s.w}, den : {s.de
                            form : {"plain", "cplx0", "isq", "imag"}, jit : {-1, 0, 1}, tol : {"abs", "pct"},
                            grader : {"formula", "numerical"}] :
                       x.jit # 0 => (x.tol = "abs" /\ x.form = "plain" /\ x.a < x.x /\ x.x < x.a + x.w)}
-BuildBetween(x) == Simple("between", x.tol, x.jit, << <<ScQ(G(x.a), x.den), ScQ(G(x.a + x.w), x.den)>> >>,
-                          << ScQ(<<x.x, IF x.form = "imag" THEN 1 ELSE 0>>, x.den) >>)
+BuildBetween(x) == Typed(Simple("between", x.tol, x.jit, << <<ScQ(G(x.a), x.den), ScQ(G(x.a + x.w), x.den)>> >>,
+                                << ScQ(<<x.x, IF x.form = "imag" THEN 1 ELSE 0>>, x.den) >>), x.form)
 
 (* ------------------------------------------------------------------ eigenvectors *)
 EigMats == <<
@@ -54,12 +55,14 @@ Box(n) == IF n = 2 THEN {<<a, b>> : a \in Ent2, b \in Ent2}
           ELSE {<<a, b, d>> : a \in Ent3, b \in Ent3, d \in Ent3} \cup {<<G(1), I, GZ>>, <<I, I, G(2)>>, <<G(1), G(1), I>>, <<G(2), G(2), G(1)>>}
 Scales == {[z |-> G(1), d |-> 1], [z |-> G(-1), d |-> 1], [z |-> I, d |-> 1], [z |-> G(2), d |-> 1], [z |-> <<1, 1>>, d |-> 1],
            [z |-> G(1), d |-> 2], [z |-> <<3, 4>>, d |-> 5]}
+QuickScales == {[z |-> G(1), d |-> 1], [z |-> I, d |-> 1], [z |-> <<1, 1>>, d |-> 1], [z |-> G(1), d |-> 2], [z |-> <<3, 4>>, d |-> 5]}
 EigM(x) == EigMats[x.mi].M
 EigLam(x) == EigMats[x.mi].lams[x.li]
 EigCases(s) == IF s.li > Len(EigMats[s.mi].lams) THEN {}
                ELSE {x \in [kind : {"eigen"}, mi : {s.mi}, li : {s.li}, b : Box(EigMats[s.mi].M.shape[1]), scale : Scales,
                             jit : {0, 1}, tol : {"abs", "pct", "zero"}] :
-                       /\ x.tol = "zero" => (x.scale.d = 1 /\ EigMats[s.mi].M.den = 1 /\ EigLam(x).den = 1)
+                       /\ (x.tol = "zero" \/ (x.tol = "pct" /\ VIsZero(EigLam(x)))) => IsPow2(x.scale.d)
+                       /\ ~Thorough => x.scale \in QuickScales
                        /\ x.jit # 0 => (x.tol = "abs" /\ Eigen(EigM(x), EigLam(x), Vc(x.b)))}
 BuildEig(x) == Simple("eigen", x.tol, x.jit, << <<EigM(x), EigLam(x)>> >>, << VReduce(VMul(x.scale.z, x.scale.d, Vc(x.b))) >>)
 
@@ -87,6 +90,7 @@ SpanCases(s) == LET vs == SpanSets[s.si] IN
                 {x \in [kind : {"span"}, si : {s.si}, co : [1..Len(vs) -> Coefs], step : 0..Len(vs[1]), stepz : {G(1), I},
                         sden : {1, 2}, jit : {0, 1}, tol : {"abs", "pct"}] :
                    /\ x.step = 0 => x.stepz = G(1)
+                   /\ (~Thorough /\ x.step # 0) => x.sden = 1
                    /\ x.jit # 0 => (x.tol = "abs" /\ x.step = 0 /\ x.sden = 1 /\ ~SeqIsZero(SpanVec(x)))}
 SpanParams(si) == [i \in 1..Len(SpanSets[si]) |-> Vc(SpanSets[si][i])]
 BuildSpan(x) == Simple("span", x.tol, x.jit, << SpanParams(x.si) >>, << VReduce(VcQ(SpanVec(x), x.sden)) >>)
@@ -124,6 +128,7 @@ EntryCases(s) == LET n == Len(EntryTargets[s.ti].ent) IN
                  {x \in [kind : {"entry"}, ti : {s.ti}, smode : {s.smode}, wrong : SUBSET (1..n), mode : EntryModes,
                          via : {"option", "explicit"}, jit : {0, 1}, tol : {"abs", "pct", "zero"}] :
                     /\ (n > 6 /\ ~Thorough) => (Cardinality(x.wrong) <= 1 \/ Cardinality(x.wrong) >= n - 1)
+                    /\ (~Thorough /\ x.smode # "const") => x.via = "explicit"
                     /\ x.jit # 0 => (x.tol = "abs" /\ x.smode = "const")}
 Xs == <<1, 2, 3>>
 EntryP(x) == LET T == EntryTargets[x.ti] IN
